@@ -1,19 +1,44 @@
-// Package c05: STUB — property C05 is not built yet.
+// Package c05: property C05 over the shared exchange-machine harness (internal/pxy).
 package c05
 
-import "verif/harness/internal/core"
+import (
+	"verif/harness/internal/core"
+	"verif/harness/internal/pxy"
+)
 
 type P struct{}
 
 func init() { core.Register(P{}) }
 
-func (P) ID() string   { return "C05" }
-func (P) Rule() string { return "stub" }
-func (P) Gen(r *core.Rand, tier string, emit func([]string)) {}
-func (P) NewExec() core.Exec                                   { return ex{} }
-func (P) Nontrivial(ops []string, impl []string) bool         { return false }
+func (P) ID() string                                  { return "C05" }
+func (P) NewExec() core.Exec                          { return pxy.New() }
+func (P) Nontrivial(ops []string, impl []string) bool { return pxy.Nontrivial(ops, impl) }
 
-type ex struct{}
+func (P) Rule() string {
+	return "case = one client connection to a MITM-configured proxy: optional plain request, CONNECT, then 1..6 requests inside the tunnel over a real TLS client session (origin-form, http:// and https:// absolute-form targets) or as plain HTTP; TLS origin and cleartext origin on different ports; modifier behaviours incl. hijack inside the tunnel; distinct by op-list hash; non-trivial when >= 2 tunnelled requests were served or a hijack occurred"
+}
 
-func (ex) Do(op string) core.Result { return core.Result{Impl: "bad-op"} }
-func (ex) Close()                   {}
+func (P) Gen(r *core.Rand, tier string, emit func([]string)) {
+	n := 120
+	if tier == "thorough" {
+		n = 2000
+	}
+	pr := pxy.Profile{Modifiers: true, Tunnels: true}
+	for i := 0; i < n; {
+		c := pxy.GenCase(r, pr)
+		if len(c) > 0 && len(c[0]) > 0 && !contains(c[0], "listener=mitm") {
+			continue
+		}
+		emit(c)
+		i++
+	}
+}
+
+func contains(s, sub string) bool {
+	for i := 0; i+len(sub) <= len(s); i++ {
+		if s[i:i+len(sub)] == sub {
+			return true
+		}
+	}
+	return false
+}
